@@ -43,7 +43,15 @@ def write_sites(prog):
     return out
 
 
+#: obligations whose failure contradicts the property (rule, construct pattern, why); every other failure is 'not recognised'
+POSITIVE: list[tuple[str, str, str]] = [
+    ('C14.R4', r'^default\[', 'declared type, default value and boolean check of a parameter disagree'),
+    ('C14.R3', r'^bioResults\.__init__$', 'must-pass: a results object can be constructed without recomputing its statistics'),
+]
+
+
 def run(ctx: Ctx) -> None:
+    ctx.positive_table = list(POSITIVE)
     prog = ctx.prog
     ctx.rule('C14.R1', 'who may write: every write-open (open(..., w/a/x), os.fdopen, DataFrame.to_csv/...) in the package takes its file name from an assignment '
              'name = get_new_file_name(...) that dominates the write in the same function (a remembered name is never reused); frozen exemptions: iteration file, '
@@ -70,9 +78,18 @@ def run(ctx: Ctx) -> None:
         ok = len(defs) >= 1 and len(fresh) == len(defs) and any(cfg.dominates(cfg.node_of(a), here) for a in fresh)
         if isinstance(namee, ast.Call) and call_name(namee) == 'get_new_file_name':
             ok = True
-        ctx.add('C14.R1', f'{owner}:write({target[:40]})', ok, (f.file, c.lineno),
+        why = None
+        if not ok:
+            stale = [a for a in defs if a not in fresh]
+            if not defs and target.startswith('self.'):
+                why = f'{target} is not assigned in {f.name}: the file is opened for writing under a name remembered from an earlier call'
+            elif fresh and not stale and not any(cfg.dominates(cfg.node_of(a), here) for a in fresh):
+                why = f'the call of get_new_file_name that defines {target} is not executed on every path to the write: on the others the remembered name is used'
+            elif stale and all(isinstance(a.value, (ast.JoinedStr, ast.Constant, ast.BinOp, ast.Attribute)) for a in stale):
+                why = f'{target} = {unparse(stale[0].value)[:60]} is a name built from fixed parts, not a name that get_new_file_name found free'
+        ctx.add('C14.R1', f'{owner}:write({target[:40]})', ok if (ok or why) else None, (f.file, c.lineno),
                 f'{unparse(c.func)}({target}) with {target} freshly obtained from get_new_file_name' if ok
-                else f'{unparse(c.func)}({target}): the name does not come from a get_new_file_name call that precedes the write on every path - an existing file can be replaced', target)
+                else (f'{unparse(c.func)}({target}): {why} - an existing file can be replaced' if why else f'{unparse(c.func)}({target}): where the name comes from is not in a form the rule understands'), target, positive=bool(why))
     ctx.floor('C14.R1', 9)
     g = prog.func('filenames', 'get_new_file_name')
     ok = any(body_is(g.body, f"""
@@ -264,10 +281,37 @@ for _SN, _ENTRIES in self.document.items():
 """)
     ok = False
     det = 'the chain missing -> default / bool -> parse_boolean / else -> as read was restructured'
+    if b is None:
+        # the same chain entered through the complementary test (`if <value present>: ... else: default`)
+        b2 = find(im.node, """
+for _SN, _ENTRIES in self.document.items():
+    for _EN, _EV in _ENTRIES.items():
+        ___
+        _DEF = self.all_parameters_dict.get(__KEY)
+        if _DEF is None:
+            ___
+        else:
+            if __PRESENT:
+                if _DEF.type is bool:
+                    try:
+                        _VAL = parse_boolean(_EV)
+                    except __EXC as _ERR:
+                        ___
+                else:
+                    _VAL = _EV
+            else:
+                _VAL = _DEF.value
+            ___
+""")
+        if b2 is not None:
+            pres = unparse(b2['__PRESENT'][1]).replace(b2['_EV'], 'entry_value')
+            if pres != 'entry_value is not None':
+                b = b2
+                b['__MISSING'] = (None, ast.parse(f'not ({pres})').body[0].value)
     if b is not None:
         det = unparse(b['__MISSING'][1]).replace(b['_EV'], 'entry_value')
         ok = det == 'entry_value is None'
-    ctx.add('C14.R4', 'Parameters.import_document', ok, im, 'missing -> default; bool -> parse_boolean; anything else is kept as read' if ok else f'values read from the file are filtered by `{det}`: an admissible value (0, 0.0, empty string) may be replaced by the default', det)
+    ctx.add('C14.R4', 'Parameters.import_document', ok if (ok or b is not None) else None, im, 'missing -> default; bool -> parse_boolean; anything else is kept as read' if ok else f'values read from the file are filtered by `{det}`: an admissible value (0, 0.0, empty string) may be replaced by the default', det, positive=b is not None)
     ap = prog.func('default_parameters', 'all_parameters_tuple')
     npar = 0
     for c in ast.walk(ap.node):
